@@ -929,7 +929,7 @@ pub fn cmd_facade_conf(args: &Args) -> J {
     let mut session = String::from("facade\n");
     let mut shapes: BTreeMap<String, u64> = BTreeMap::new();
     for (is_static, calls) in &log {
-        let line = format!("{} {}", *is_static as u8, calls.iter().map(|(o, r)| format!("{o}{r}")).collect::<Vec<_>>().join(" "));
+        let line = format!("{} {}", *is_static as u8, calls.iter().map(|(o, r, c, a)| format!("{o}{r}{c}{a}")).collect::<Vec<_>>().join(" "));
         *shapes.entry(line.clone()).or_default() += 1;
         session.push_str(&line);
         session.push('\n');
